@@ -74,6 +74,20 @@ class Subst(ast.NodeTransformer):
     def visit_Lambda(self, node):
         return node
 
+    def visit_Call(self, node):
+        node = self.generic_visit(node)
+        # f(*(a, b)) is f(a, b): a written-out tuple that reached a star position by substitution
+        if any(isinstance(a, ast.Starred) and isinstance(a.value, (ast.Tuple, ast.List)) and not any(isinstance(x, ast.Starred) for x in a.value.elts) for a in node.args):
+            new = []
+            for a in node.args:
+                if isinstance(a, ast.Starred) and isinstance(a.value, (ast.Tuple, ast.List)) and not any(isinstance(x, ast.Starred) for x in a.value.elts):
+                    new.extend(a.value.elts)
+                else:
+                    new.append(a)
+            node = copy.copy(node)
+            node.args = new
+        return node
+
     def visit_ListComp(self, node):
         return self._comp(node)
 
@@ -265,7 +279,8 @@ def _inlinable_body(fi):
                         root = root.value
                     if isinstance(root, ast.Name) and root.id in params:
                         if root.id == sn:
-                            return None  # writes module state under its own name: keep the call
+                            mutated.add("<self>")  # writes module state under its own name: fine when called on the caller's own self
+                            continue
                         mutated.add(root.id)
             if isinstance(n, ast.AugAssign) and isinstance(t, ast.Name) and t.id in params:
                 mutated.add(t.id)
@@ -275,8 +290,9 @@ def _inlinable_body(fi):
                 root = root.func if isinstance(root, ast.Call) else root.value
             if isinstance(root, ast.Name) and root.id in params:
                 if root.id == sn:
-                    return None
-                mutated.add(root.id)
+                    mutated.add("<self>")
+                else:
+                    mutated.add(root.id)
             elif isinstance(root, ast.Name) and root.id in loop_targets:
                 # written through a loop variable: the parameters its literal elements name
                 mutated |= loop_var_params.get(root.id, set())
@@ -347,6 +363,10 @@ def _resolve_helper(call, caller):
         if env is None:
             return None
         for pn in mutated:
+            if pn == "<self>":
+                if isinstance(f, ast.Attribute) and isinstance(f.value, ast.Name) and f.value.id == "self" and caller.cls is not None and not caller.is_static:
+                    continue
+                return None
             a = env.get(pn)
             root = a
             while isinstance(root, (ast.Attribute, ast.Subscript)):
@@ -704,6 +724,8 @@ def _run_stmt(st, p, done, assume, max_paths, caller=None):
                 dec = _const_truth(et)  # a test on constant arguments of an inlined helper
             if dec is None:
                 dec = _already_decided(et, p0)
+            if dec is None and callable(assume.get("__decide__")):
+                dec = assume["__decide__"](et)
             if dec is not False:
                 p1 = p0.fork() if dec is None else p0
                 p1.conds.append((et, st.test, True))
